@@ -76,19 +76,6 @@ theorem oddPowTable_spec {W : Nat} {r : Ring} (hwf : r.WF W) {b : Nat} (hb : b <
 
 -- ---------------------------------------------------------------- window extraction (pure arithmetic)
 
-theorem tz_maximal {w c : Nat} (hw : 0 < w) (hc : 2 ^ c ∣ w) : c ≤ trailingZeros w := by
-  by_contra hlt
-  have hodd := tzLoop_odd w w hw (Nat.le_refl _)
-  change (w / 2 ^ trailingZeros w) % 2 = 1 at hodd
-  generalize trailingZeros w = t at hlt hodd
-  have hlt : t < c := by omega
-  obtain ⟨d, hd⟩ := hc
-  have hsplit : 2 ^ c = 2 ^ t * (2 * 2 ^ (c - t - 1)) := by
-    rw [← Nat.pow_succ', ← Nat.pow_add]; congr 1; omega
-  rw [hd, hsplit, Nat.mul_assoc, Nat.mul_div_cancel_left _ (Nat.two_pow_pos _), Nat.mul_assoc,
-    Nat.mul_mod_right] at hodd
-  omega
-
 /-- the window the loop takes at a set bit: `k = numBits` bits ending at `bit`, odd, and the
     exponent prefix grows by exactly these bits -/
 theorem window_extract {e wl bit : Nat} (hwl : 0 < wl) (hbit : (e / 2 ^ bit) % 2 = 1) :
